@@ -117,6 +117,10 @@ func Thorough() bool { return Tier == "thorough" }
 
 // N picks a case count by tier; thorough counts are divided over shards.
 func N(quick, thorough int) int {
+	if os.Getenv("VERIF_RACE") == "1" {
+		// race-instrumented binaries are several times slower: a quarter of the cases
+		quick, thorough = max(quick/4, 5), max(thorough/4, 5)
+	}
 	if Thorough() {
 		n := thorough / NShards
 		if n < 1 {
